@@ -81,6 +81,7 @@ macro_rules! with_fang {
             "plain" => { let $f = Plain($s["id"].as_i64().unwrap_or(0)); $body }
             "jwt" => { let $f = jwt(); $body }
             "basic" => { let $f = basic(); $body }
+            "basic2" => { let $f = [basic(), BasicAuth { username: "u2", password: "p2" }]; $body }          // the array form of the fang
             "tag" => { let $f = openapi::Tag(leak(&format!("t{}", $s["id"].as_i64().unwrap_or(0)))); $body }
             k => panic!("harness: fang kind {k}"),
         }
